@@ -145,47 +145,55 @@ fn check_input(t: &[u8], wlen: usize, rep: &mut Report) {
     let size = wlen * 1000 + t.len();
     let case = |engine: &str| json!({"kind":"validate","input":hex(t),"engine":engine});
     let mut results: Vec<Result<(), Utf8Error>> = Vec::with_capacity(4);
+    // (engine, problem class, extra detail) — identical problems on all four engines are one root cause
+    // (the accept scans delegate diagnosis to the scalar validator) and are reported once as `all-engines`.
+    let mut problems: Vec<(&'static str, String, Value)> = Vec::new();
     for (name, f) in ENGINES {
         rep.trans(1);
         let r = match catch(|| f(t)) {
             Ok(r) => r,
             Err(m) => {
-                rep.fail(&format!("{name}:panic"), size, || json!({"kind":"validate","input":hex(t),"engine":name,"panic":m}));
+                problems.push((name, "panic".into(), json!({"panic": m})));
                 continue;
             }
         };
         match (&r, &exp) {
             (Ok(()), None) => {}
-            (Ok(()), Some((_, k))) => rep.fail(&format!("verdict:{name}:accepts-ill-formed:{}", kind_name(*k)), size, || case(name)),
-            (Err(e), None) => rep.fail(&format!("verdict:{name}:rejects-well-formed:{}", kind_name(e.kind)), size, || case(name)),
+            (Ok(()), Some((_, k))) => problems.push((name, format!("verdict:accepts-ill-formed:{}", kind_name(*k)), json!({}))),
+            (Err(e), None) => problems.push((name, format!("verdict:rejects-well-formed:{}", kind_name(e.kind)), json!({}))),
             (Err(e), Some((off, k))) => {
                 rep.evals(3);
                 if e.kind != *k {
-                    rep.fail(&format!("kind:{name}:expected-{}-got-{}", kind_name(*k), kind_name(e.kind)), size, || case(name));
+                    problems.push((name, format!("kind:expected-{}-got-{}", kind_name(*k), kind_name(e.kind)), json!({})));
                 } else if e.offset != *off {
                     let rel = if e.offset < v { "before-valid-prefix-end" } else if e.offset < *off { "early" } else { "late" };
-                    rep.fail(&format!("offset:{name}:{}:{rel}", kind_name(*k)), size, || {
-                        let mut c = case(name);
-                        c["got_offset"] = json!(e.offset);
-                        c["expected_offset"] = json!(off);
-                        c["valid_prefix"] = json!(v);
-                        c
-                    });
+                    problems.push((name, format!("offset:{}:{rel}", kind_name(*k)), json!({"got_offset": e.offset, "expected_offset": off, "valid_prefix": v})));
                 } else {
                     let (l, c) = lf_line_col(t, e.offset);
                     if (e.line, e.column) != (l, c) {
                         let w = if e.line != l { "line" } else { "column" };
-                        rep.fail(&format!("linecol:{name}:wrong-{w}"), size, || {
-                            let mut cs = case(name);
-                            cs["got"] = json!([e.line, e.column]);
-                            cs["expected"] = json!([l, c]);
-                            cs
-                        });
+                        problems.push((name, format!("linecol:wrong-{w}"), json!({"got": [e.line, e.column], "expected": [l, c]})));
                     }
                 }
             }
         }
         results.push(r);
+    }
+    if problems.len() == 4 && problems.iter().all(|p| p.1 == problems[0].1) {
+        let (_, p, extra) = &problems[0];
+        rep.fail(&format!("{p}:all-engines"), size, || {
+            let mut c = case("scalar");
+            c["detail"] = extra.clone();
+            c
+        });
+    } else {
+        for (name, p, extra) in &problems {
+            rep.fail(&format!("{p}:{name}"), size, || {
+                let mut c = case(name);
+                c["detail"] = extra.clone();
+                c
+            });
+        }
     }
     // all engines must report the identical Utf8Error
     if results.len() == 4 {
